@@ -99,7 +99,7 @@ func evalC01(c *core.Ctx, e *eco.Eco, op string, args []string) []core.Violation
 func runC01(c *core.Ctx, ck *Check) {
 	evalWitnesses(c, ck)
 	ecos := eco.All()
-	pools := c.Scale(24, 200)
+	pools := c.Scale(40, 1500)
 	size := c.Scale(200, 400)
 	type job struct {
 		e *eco.Eco
